@@ -21,14 +21,14 @@ structure Image where
   spans : List (Nat × Nat)
   /-- `.break` addresses relative to 0 (as `parse` produces them, before `with_orig`) -/
   bps : List Nat
-  deriving Repr
+  deriving Repr, DecidableEq
 
 /-- Observable outcome of assembling one source text. -/
 inductive Outcome where
   | ok (img : Image)
   | diag (k : DiagKind) (span : Option (Nat × Nat))
   | panic (site : String)
-  deriving Repr
+  deriving Repr, DecidableEq
 
 /-- `parse` → `backpatch` → `emit`* with an arbitrary feature state (`none` = not initialised). -/
 def assembleWith (feat : Option Bool) (tbl : SymTab) (src : List Char) : Outcome × SymTab :=
